@@ -34,7 +34,9 @@ theorem init_no_selection (F : List Char → Option Rat) (g : Cycles.GoodCfg) (p
       Synced F (init g pstep thr cache ph).1 := by
   have h : (init g pstep thr cache ph).1.sel = none := by
     rw [init_eq, computeMetric_ok _ (init0_inv pstep thr cache ph)]; rfl
-  exact ⟨h, fun sel hs => by rw [h] at hs; cases hs, fun sel hs => by rw [h] at hs; cases hs⟩
+  refine ⟨h, ?_, ?_⟩
+  · intro sel hs; rw [h] at hs; cases hs
+  · intro sel hs; rw [h] at hs; cases hs
 
 /-- Every operation preserves the invariant. -/
 theorem Inv_step (F : List Char → Option Rat) (s : State) (op : Op) (h : Inv s) : Inv (step F s op).1 :=
